@@ -139,7 +139,7 @@ def instance_fails(kind, desc, sig):
 def run(ctx):
     ctx.prove()
     rng = ctx.rng
-    count = 300 if ctx.quick else 1500
+    count = 300 if ctx.quick else 3000
     max_n = 14 if ctx.quick else 16
     stats = {}
     cases, terms = [], []
